@@ -802,8 +802,125 @@ impl Property for C09 {
             o.class("identifier-reused-after-pubrel");
         }
         o.fail = failure_for(&out, &["C09/", "C07/stream/message-lost", "C08/missing-pubrec"]);
+        if o.fail.is_none() {
+            // an exchange that spans a reconnection of a session that continues
+            let h = case_hash(case);
+            o.fail = c09_across_reconnection((h % 3) as u8, (h / 3 % 3) as u8, 1 + (h / 9 % 3) as usize);
+            o.class("exchange-spanning-a-reconnection");
+        }
         o
     }
+}
+
+/// The session continues over a reconnection (the server says Session Present); `open` inbound
+/// QoS 2 exchanges are open (PUBREC sent, no PUBREL yet) when the connection is lost, and the
+/// broker re-delivers them on the new connection before releasing them.
+/// `expiry1`: 0 = the first CONNECT asks for one hour, 1 = the first CONNACK assigns it, 2 = both;
+/// `second`: 0 = the second CONNECT repeats the interval, 1 = it carries none, 2 = the hook records
+/// the disconnection (interval repeated, session alive).
+fn c09_across_reconnection(expiry1: u8, second: u8, open: usize) -> Option<Failure> {
+    use crate::world::World;
+    let plan = WritePlan::default();
+    let mut w = World::new();
+    let spec1 = ConnectSpec { session_expiry: if expiry1 != 1 { Some(3600) } else { None }, client_id: Some("c09".into()), ..Default::default() };
+    let connack1 = rc::Connack { session_expiry: if expiry1 != 0 { Some(3600) } else { None }, ..Default::default() };
+    if connect_and_run(&mut w, spec1.clone(), &connack1, &plan).is_err() {
+        return None;
+    }
+    let mut tr = Tracker::new();
+    tr.skip_existing(&mut w);
+    let s = w.start_op(0, OpSpec::Subscribe(tagged_subscribe(0, 1))).unwrap();
+    settle(&mut w, &plan, true);
+    tr.update(&mut w);
+    let spid = tr.pid(s)?;
+    let sid = tr.sub_id(s)?;
+    feed_packet(&mut w, &rc::Packet::Suback(rc::AckList { pid: spid, reasons: vec![2], ..Default::default() }), &rc::Form::canonical());
+    settle(&mut w, &plan, true);
+    let stream = w.make_stream(s)?;
+    let msg = |pid: u16, dup: bool, tag: &str| {
+        rc::encode(
+            &rc::Packet::Publish(rc::Publish { qos: 2, dup, pid: Some(pid), topic: "c09/t".into(), payload: tag.as_bytes().to_vec(), subscription_ids: vec![sid], ..Default::default() }),
+            &rc::Form::canonical(),
+        )
+    };
+    for k in 0..open {
+        w.tick();
+        w.reader.feed(msg(10 + k as u16, false, &format!("first-{k}")));
+        settle(&mut w, &plan, true);
+    }
+    w.drain_stream(stream);
+    if w.streams[stream].items.len() != open {
+        return None; // C07 / C08 judge a single connection
+    }
+    // the connection is lost
+    w.tick();
+    w.reader.set_eof();
+    settle(&mut w, &plan, true);
+    if w.run_result.is_none() {
+        return None;
+    }
+    if second == 2 && !w.mark_disconnected(5) {
+        return None;
+    }
+    if !w.set_up_again() {
+        return None;
+    }
+    let spec2 = ConnectSpec { clean_start: Some(false), session_expiry: if second == 1 { None } else { Some(3600) }, client_id: Some("c09".into()), ..Default::default() };
+    // the server resumes the session (and, where it assigned the interval, says so again)
+    let connack2 = rc::Connack { session_present: true, session_expiry: if expiry1 != 0 { Some(3600) } else { None }, ..Default::default() };
+    if connect_and_run(&mut w, spec2, &connack2, &plan).is_err() {
+        return None;
+    }
+    w.sync_wire();
+    let before = w.pkts.len();
+    for k in 0..open {
+        w.tick();
+        w.reader.feed(msg(10 + k as u16, true, &format!("first-{k}")));
+        settle(&mut w, &plan, true);
+    }
+    if let Some(p) = first_panic(&w) {
+        return Some(Failure { sig: format!("PANIC/{}", panic_sig(&p)), msg: p });
+    }
+    w.drain_stream(stream);
+    let how = format!(
+        "first CONNECT {} / first CONNACK {} a Session Expiry Interval; second CONNECT {}; {open} exchange(s) open at the loss",
+        if expiry1 != 1 { "carries" } else { "lacks" },
+        if expiry1 != 0 { "assigns" } else { "lacks" },
+        match second { 0 => "repeats it", 1 => "carries none (the server resumes the session all the same)", _ => "repeats it, disconnection recorded through the hook" },
+    );
+    if w.streams[stream].ended {
+        return None; // C07's claim
+    }
+    if w.streams[stream].items.len() > open {
+        return Some(Failure {
+            sig: "C09/stream/qos2-redelivery-yielded-twice/across-reconnection".into(),
+            msg: format!("{} message(s) yielded for {open} QoS 2 message(s) re-delivered (DUP) before their PUBREL on the resumed session ({how})", w.streams[stream].items.len()),
+        });
+    }
+    w.sync_wire();
+    let recs = w.pkts[before..].iter().filter(|p| matches!(&p.decoded, Ok(rc::Packet::Pubrec(_)))).count();
+    if recs != open && w.run_result.is_none() {
+        return Some(Failure {
+            sig: "C08/missing-pubrec".into(),
+            msg: format!("{recs} PUBREC for {open} re-delivered QoS 2 PUBLISH packets on the resumed session ({how})"),
+        });
+    }
+    // release, then the identifier denotes a new message
+    for k in 0..open {
+        w.tick();
+        w.reader.feed(rc::encode(&rc::Packet::Pubrel(rc::Ack { pid: 10 + k as u16, ..Default::default() }), &rc::Form::short()));
+        settle(&mut w, &plan, true);
+        w.reader.feed(msg(10 + k as u16, false, &format!("second-{k}")));
+        settle(&mut w, &plan, true);
+    }
+    w.drain_stream(stream);
+    if w.run_result.is_none() && !w.streams[stream].ended && w.streams[stream].items.len() != 2 * open {
+        return Some(Failure {
+            sig: "C09/stream/new-message-after-pubrel-not-yielded/across-reconnection".into(),
+            msg: format!("{} messages yielded in all; {open} first deliveries and {open} new messages after their PUBREL were sent ({how})", w.streams[stream].items.len()),
+        });
+    }
+    None
 }
 
 // ---------------------------------------------------------------------------------
